@@ -120,4 +120,50 @@ def Definition.mapLoc (f : Loc → Loc) : Definition → Definition
 
 def Document.mapLoc (f : Loc → Loc) (d : Document) : Document := { definitions := d.definitions.map (Definition.mapLoc f), loc := f d.loc }
 
+/-! ### `loc` of a node, and the list of all nodes of one kind below a node -/
+
+def TypeRef.loc : TypeRef → Loc
+  | .named t => t.loc
+  | .list _ loc => loc
+  | .nonNull _ loc => loc
+
+def Value.loc : Value → Loc
+  | .var v => v.loc
+  | .int _ loc => loc
+  | .float _ loc => loc
+  | .string s => s.loc
+  | .boolean _ loc => loc
+  | .null loc => loc
+  | .enum _ loc => loc
+  | .list _ loc => loc
+  | .object _ loc => loc
+
+/-- the type itself and every type nested in it -/
+def TypeRef.subs : TypeRef → List TypeRef
+  | .named t => [.named t]
+  | .list t loc => .list t loc :: t.subs
+  | .nonNull t loc => .nonNull t loc :: t.subs
+
+mutual
+/-- the value itself and every value nested in it (list items, object field values, at any depth) -/
+def Value.subs : Value → List Value
+  | .var v => [.var v]
+  | .int v loc => [.int v loc]
+  | .float v loc => [.float v loc]
+  | .string s => [.string s]
+  | .boolean b loc => [.boolean b loc]
+  | .null loc => [.null loc]
+  | .enum v loc => [.enum v loc]
+  | .list vs loc => .list vs loc :: subsValues vs
+  | .object fs loc => .object fs loc :: subsFields fs
+def subsValues : List Value → List Value
+  | [] => []
+  | v :: vs => v.subs ++ subsValues vs
+def ObjectField.subs : ObjectField → List Value
+  | .mk _ value _ => value.subs
+def subsFields : List ObjectField → List Value
+  | [] => []
+  | x :: fs => x.subs ++ subsFields fs
+end
+
 end PyGql.Ast
